@@ -1,6 +1,9 @@
 package main
 
-import "fmt"
+import (
+	"fmt"
+	"strings"
+)
 
 func registry() []PropSpec {
 	return []PropSpec{
@@ -79,6 +82,7 @@ func registry() []PropSpec {
 			Quick: []HarnessSpec{
 				{Pkg: pkgGrpcutil, Func: "H18a_q", Unwind: 16, Note: "PercentEncodeMessage on every byte string of length <=3 (all 256 byte values)"},
 				{Pkg: pkgGrpcutil, Func: "H18b_q", Unwind: 12, Note: "header list -> gRPC metadata -> header list: one header, key from {x-a, X-A-Bin, x-b-bin, X-C}, 1..2 values (ASCII or with a 0xff byte)"},
+				{Pkg: pkgInternal, Func: "H18c_q", Unwind: 60, Note: "ConvertProtoToConnectError then ConvertConnectToProtoError (real connect-go Error/ErrorDetail code): codes 1..16, empty / non-empty message, 0..2 details of two types with 0..2 value bytes"},
 				{Pkg: pkgInternal, Func: "H18e_q", Unwind: 12, Note: "StrictProtoCodec / StrictJSONCodec: Marshal, MarshalAppend, MarshalStable followed by Unmarshal on an arbitrary message; any 1..3 unknown-field bytes are rejected"},
 			},
 			Thorough: []HarnessSpec{
@@ -177,6 +181,7 @@ func registry() []PropSpec {
 				{Pkg: pkgTracer, Func: "H14a_resp_q", Unwind: 40, CaseGen: c14Cases(2, 2, 2), CaseNote: c14Note(2, 2, 2), Note: "response body: <=2 enveloped messages (any flags byte, any payload bytes), terminal condition EOF / read error (also mid-data) / Close (ok or failing) symbolic; no decompressor"},
 				{Pkg: pkgTracer, Func: "H14a_respz_q", Unwind: 40, CaseGen: c14Cases(2, 2, 2), CaseNote: c14Note(2, 2, 2), Note: "same with a (stub) decompressor negotiated"},
 				{Pkg: pkgTracer, Func: "H14a_req_q", Unwind: 40, CaseGen: c14Cases(2, 2, 2), CaseNote: c14Note(2, 2, 2), Note: "request body, same bounds"},
+				{Pkg: pkgTracer, Func: "H14w_q", Unwind: 40, CaseGen: c14wCases(2, 2, 2), CaseNote: "case split: message lengths, number of bytes accepted in total, their partition into 2 writes, and 0..2 extra bytes of the last write that the underlying writer refuses (short write); flags, payloads and the error of a complete last write symbolic", Note: "tracingResponseWriter.Write: response written by the handler in 2 writes, the last one possibly short / failing"},
 			},
 			Thorough: []HarnessSpec{
 				{Pkg: pkgTracer, Func: "H14a_resp_t", Unwind: 60, CaseGen: c14Cases(3, 2, 3), CaseNote: c14Note(3, 2, 3), Note: "response body: <=3 enveloped messages, symbolic flags/payload/terminal condition; no decompressor"},
@@ -330,6 +335,33 @@ func c15Cases(R int) func() []map[string]int64 {
 					}
 				}
 				rec(0, total)
+			}
+		}
+		return out
+	}
+}
+
+
+func c14wCases(M, L, R int) func() []map[string]int64 {
+	base := c14Cases(M, L, R)
+	return func() []map[string]int64 {
+		var out []map[string]int64
+		seen := map[string]bool{}
+		for _, c := range base() {
+			// terminal-behaviour dimensions of the reader harness are irrelevant here: keep one representative
+			k := fmt.Sprint(c["limit"], c["len#0"], c["len#1"], c["len#2"], c["rn#0"], c["rn#1"], c["rn#2"])
+			if seen[k] {
+				continue
+			}
+			seen[k] = true
+			for extra := 0; extra <= 2; extra++ {
+				n := map[string]int64{"extra": int64(extra), "limit": c["limit"]}
+				for key, v := range c {
+					if strings.HasPrefix(key, "len#") || strings.HasPrefix(key, "rn#") {
+						n[key] = v
+					}
+				}
+				out = append(out, n)
 			}
 		}
 		return out
